@@ -1,6 +1,7 @@
 package main
 
 import (
+	"go/ast"
 	"fmt"
 	"go/token"
 	"go/types"
@@ -70,50 +71,52 @@ func runC20(c *Ctx) {
 		c.R.undecided(r1, "anchor/sort-routine", "", "", "a method sorting the values with sort.Float64s", "none")
 		return
 	}
-	// D1a: rank-dependent reads dominated by sort
+	// D1a: on every path, a rank-dependent read of Values comes after sort() on the same receiver
+	// (paths run through extracted helpers, so `rank, ok := d.sortedRank(q)` is seen through)
 	nReads := 0
 	for _, f := range methods {
-		tc := newTermCtx(c.P)
-		var sortCalls []ssa.Instruction
-		for _, b := range f.Blocks {
-			for _, in := range b.Instrs {
-				if call, ok := in.(*ssa.Call); ok {
-					if fn, ok := call.Common().Value.(*ssa.Function); ok && fn == sortFn && tc.Of(call.Common().Args[0]).isRecv() {
-						sortCalls = append(sortCalls, in)
-					}
-				}
-			}
+		if f == sortFn || !ast.IsExported(f.Name()) {
+			continue // unexported helpers are judged in the context of their exported callers
 		}
-		nth := 0
-		for _, b := range f.Blocks {
-			for _, in := range b.Instrs {
-				ia, ok := in.(*ssa.IndexAddr)
-				if !ok || !isRecvField(tc.Of(ia.X), valuesF) {
+		paths, _ := exec(c, f, nil, 2)
+		type verdict struct {
+			ok    bool
+			found string
+			ia    *ssa.IndexAddr
+		}
+		reads := map[*ssa.IndexAddr]*verdict{}
+		var order []*ssa.IndexAddr
+		for _, p := range paths {
+			for _, ld := range p.Loads {
+				if !(ld.Addr.Op == "index" && isRecvField(ld.Addr.Args[0], valuesF)) {
 					continue
 				}
-				// reads only
-				isRead := false
-				for _, r := range *ia.Referrers() {
-					if u, ok := r.(*ssa.UnOp); ok && u.Op == token.MUL {
-						isRead = true
-					}
-				}
-				if !isRead {
-					continue
-				}
+				ia := ld.Instr.(*ssa.UnOp).X.(*ssa.IndexAddr)
 				if isRangeIndex(ia.Index) {
 					continue // order-independent full scan
 				}
-				nReads++
-				nth++
-				dom := false
-				for _, sc := range sortCalls {
-					if instrDominates(sc, ia) {
-						dom = true
+				v := reads[ia]
+				if v == nil {
+					v = &verdict{ok: true, ia: ia}
+					reads[ia] = v
+					order = append(order, ia)
+				}
+				sorted := false
+				for _, e := range p.Effects {
+					if e.Seq < ld.Seq && e.Kind == "call" && e.Call.Op == "call" && e.Call.Sym == funcName(sortFn) && len(e.Call.Args) > 0 && e.Call.Args[0].isRecv() {
+						sorted = true
 					}
 				}
-				c.R.check(dom, r1, fmt.Sprintf("%s/rank-read#%d", shortFn(f), nth), shortFn(f), c.ipos(ia), "a read of Values at a rank-dependent index is dominated by sort() on the same receiver", fmt.Sprintf("index %s; %d sort call(s) in the method", tc.Of(ia.Index), len(sortCalls)))
+				if !sorted {
+					v.ok = false
+					v.found = fmt.Sprintf("index %s read on path [%s] with no earlier sort()", ld.Addr.Args[1], p.String())
+				}
 			}
+		}
+		for n, ia := range order {
+			v := reads[ia]
+			nReads++
+			c.R.check(v.ok, r1, fmt.Sprintf("%s/rank-read#%d", shortFn(f), n+1), shortFn(f), c.ipos(ia), "a read of Values at a rank-dependent index comes, on every path, after sort() on the same receiver", firstNonEmpty(v.found, "sorted before the read on every path"))
 		}
 	}
 	c.R.floor(r1, "rank-dependent reads of Values", nReads, 4)
